@@ -59,4 +59,9 @@ theorem isum_congr (n : Nat) (f g : Nat → ℝ) (h : ∀ i, i < n → f i = g i
   rw [isum_eq, isum_eq]
   exact Finset.sum_congr rfl fun i hi => h i (Finset.mem_range.mp hi)
 
+theorem sum_tensor_two (nIds nDim : Nat) (g T : Nat → Nat → Nat → ℝ) :
+    ∑ i ∈ Finset.range nIds, ∑ p ∈ Finset.range 2, ∑ d ∈ Finset.range nDim, g i p d * T i p d
+      = isum2 nIds nDim (fun i d => g i 0 d * T i 0 d + g i 1 d * T i 1 d) := by
+  simp [isum2_eq, Finset.sum_range_succ, Finset.sum_add_distrib]
+
 end ChiModel
